@@ -12,6 +12,7 @@ def parseSrc : String → Option Src
   | "statm" => some .statm
   | "cmdline" => some .cmdline
   | "io" => some .io
+  | "smaps_rollup" => some .rollup
   | _ => none
 
 def parseFFun : String → Option FFun
@@ -32,9 +33,12 @@ def parseExc : String → Option Exc
     (and `cfg_good` then fails) -/
 def parseMeth (r : String × String × Bool × List String × Bool) : Option Meth :=
   let (name, front, guard, srcs, zprobe) := r
-  match srcs.mapM parseSrc, (if front = "" then some none else (parseFFun front).map some) with
-  | some ss, some f => some ⟨name, f, guard, guard && Gen.C16.guardRaisesWhenGone, ss, zprobe⟩
-  | _, _ => none
+  let alt : Option (Option Src) := match Gen.C16.methAlt.lookup name with
+    | none => some none
+    | some a => (parseSrc a).map some
+  match srcs.mapM parseSrc, (if front = "" then some none else (parseFFun front).map some), alt with
+  | some ss, some f, some a => some ⟨name, f, guard, guard && Gen.C16.guardRaisesWhenGone, ss, zprobe, a⟩
+  | _, _, _ => none
 
 /-- configuration of the sequential model as extracted from the current source -/
 def cfg : Cfg :=
@@ -68,7 +72,7 @@ def ccfgProc : Conc.CCfg :=
 
 /- ------------------------------------------------------------------ two cache levels -/
 
-def srcNames : List String := ["stat", "status", "smaps", "statm", "cmdline", "io"]
+def srcNames : List String := ["stat", "status", "smaps", "statm", "cmdline", "io", "smaps_rollup"]
 def ffunNames : List String := ["cpu_times", "memory_info", "ppid", "uids"]
 
 /-- "front" = one front-end cache_(de)activate, "proc" = `_proc.oneshot_enter()/exit()`, i.e. one
